@@ -53,7 +53,7 @@ func ruleProxySourceGate(c *Ctx, rule string) {
 		}
 	})
 	c.floor(rule, "gated sites in forwardRpc", n, 2)
-	rulePanicReachability(c, rule, p.inFns("goat.Proxy.", "goat.proxyClient.", "goat.NewProxy"))
+	rulePanicReachability(c, rule, p.reachFns("goat.Proxy.", "goat.proxyClient.", "goat.NewProxy"))
 }
 
 func ruleForwardingLoopNeverWaits(c *Ctx, rule string) {
@@ -260,8 +260,30 @@ func ruleDemuxRouting(c *Ctx, r1, r2 string) {
 	_, rpc := p.readResult(run)
 	le := p.Locks()
 	lock := "goat.Demux.conns.Mutex"
+	// the lookup-or-create function: Run itself, or a helper it was extracted into (the function calling newConnLocked)
+	loc := run
+	var helperCall *ssa.Call
+	for _, f := range p.Funcs {
+		if len(p.callsTo(f, "goat.Demux.newConnLocked ", false)) > 0 {
+			loc = f
+		}
+	}
+	envelope := rpc
+	if loc != run {
+		hc := p.oneCall(run, p.fnKey(loc)+" ", false).(*ssa.Call)
+		helperCall = hc
+		// the helper is given the envelope just read
+		okArg := false
+		for k, a := range hc.Call.Args {
+			if p.sameValue(a, rpc) && k < len(loc.Params) {
+				envelope = loc.Params[k]
+				okArg = true
+			}
+		}
+		c.check(r1, "Run:helper-gets-the-envelope-read", okArg, "the lookup-or-create helper is called with the envelope just read", p.ipos(hc))
+	}
 	var lk *ssa.Lookup
-	allInstrs(run, func(i ssa.Instruction) {
+	allInstrs(loc, func(i ssa.Instruction) {
 		if l, ok := i.(*ssa.Lookup); ok {
 			if fk, ok := mapField(l.X); ok && fk.String() == "goat.Demux.conns.value" {
 				lk = l
@@ -269,14 +291,40 @@ func ruleDemuxRouting(c *Ctx, r1, r2 string) {
 		}
 	})
 	if lk == nil {
-		panic(UnresolvedError{"lookup in Demux.conns.value in Run"})
+		panic(UnresolvedError{"lookup in Demux.conns.value in " + p.fnKey(loc)})
 	}
-	// key = demuxOn(rpc)
+	// key = demuxOn(envelope)
 	keyOK := false
-	if cl, ok := lk.Index.(*ssa.Call); ok && p.callbackField(cl.Call.Value) == "goat.Demux.demuxOn" && p.sameValue(cl.Call.Args[0], rpc) {
+	if cl, ok := lk.Index.(*ssa.Call); ok && p.callbackField(cl.Call.Value) == "goat.Demux.demuxOn" && p.sameValue(cl.Call.Args[0], envelope) {
 		keyOK = true
 	}
 	c.check(r1, "Run:key-is-demuxOn(envelope)", keyOK, "the connection is selected by the caller's key function applied to the envelope just read", p.ipos(lk))
+	// connPhi: value that is "the entry looked up, or the one created for the same key when absent"
+	isLookupOrCreate := func(cv ssa.Value) bool {
+		ph, ok := cv.(*ssa.Phi)
+		if !ok {
+			return false
+		}
+		okT := true
+		for _, ed := range ph.Edges {
+			switch x := ed.(type) {
+			case *ssa.Extract:
+				if x.Tuple != ssa.Value(lk) {
+					okT = false
+				}
+			case *ssa.Call:
+				if x.Call.StaticCallee() == nil || p.fnKey(x.Call.StaticCallee()) != "goat.Demux.newConnLocked" || !p.sameValue(x.Call.Args[1], lk.Index) {
+					okT = false
+				} else {
+					fs := p.Facts(x)
+					c.check(r2, "Run:create-only-if-absent", fs.False(p.lpath(extractOf(lk, 1))) && le.Must(x)[lock] && le.Must(lk)[lock], "a logical connection is created only when the key is absent, in the critical section of the lookup: "+fs.String(), p.ipos(x))
+				}
+			default:
+				okT = false
+			}
+		}
+		return okT
+	}
 	n := 0
 	for _, u := range p.chanUsesIn(run) {
 		if u.kind != "send" {
@@ -291,22 +339,13 @@ func ruleDemuxRouting(c *Ctx, r1, r2 string) {
 			}
 		}
 		okT := false
-		if ph, ok := cv.(*ssa.Phi); ok {
-			okT = true
-			for _, ed := range ph.Edges {
-				switch x := ed.(type) {
-				case *ssa.Extract:
-					if x.Tuple != ssa.Value(lk) {
-						okT = false
-					}
-				case *ssa.Call:
-					if x.Call.StaticCallee() == nil || p.fnKey(x.Call.StaticCallee()) != "goat.Demux.newConnLocked" || !p.sameValue(x.Call.Args[1], lk.Index) {
-						okT = false
-					} else {
-						fs := p.Facts(x)
-						c.check(r2, "Run:create-only-if-absent", fs.False(p.lpath(extractOf(lk, 1))) && le.Must(x)[lock] && le.Must(lk)[lock], "a logical connection is created only when the key is absent, in the critical section of the lookup: "+fs.String(), p.ipos(x))
-					}
-				default:
+		if helperCall == nil {
+			okT = isLookupOrCreate(cv)
+		} else {
+			// the target is what the helper returned, and the helper returns the looked-up-or-created entry
+			okT = cv == ssa.Value(helperCall)
+			for _, r := range returnsOf(loc) {
+				if !isLookupOrCreate(retVals(r)[0]) {
 					okT = false
 				}
 			}
